@@ -34,7 +34,7 @@ Theorem C03_de_result_constrained :
   forall (N : Num) (inf : T N) (de2 : bool) (npop : nat),
   StrictWeak (T N) (ltb N) -> (forall p, is_top N (add N inf p)) -> is_top N inf ->
   forall (ops : list (op N (de_in N))) (sc : sys N * de N),
-  Forall (clean_op N _ (de_ok_in N npop) false) ops -> P_de N inf npop (fst sc) (snd sc) -> Inv_cons N (fst sc) ->
+  Forall (clean_op N _ (de_ok_in N npop) false false) ops -> P_de N inf npop (fst sc) (snd sc) -> Inv_cons N (fst sc) ->
   let r := run N inf _ _ (de_algo N inf de2) sc ops in
   constrained_call N (fst r) (de_best N inf (snd r)) /\ Forall (constrained_call N (fst r)) (members N (snd r)).
 Proof. exact de_result_constrained. Qed.
@@ -46,7 +46,7 @@ Theorem C03_nm_result_constrained :
   forall (N : Num) (inf : T N), (forall p, is_top N (add N inf p)) -> is_top N inf ->
   forall cons0 : vec N -> vec N, (forall x, cons0 (cons0 x) = cons0 x) ->
   forall (ops : list (op N (nm_in N))) (sc : sys N * nm N),
-  Forall (clean_op N _ (nm_ok_in N) true) ops -> P_nm N inf cons0 (fst sc) (snd sc) ->
+  Forall (clean_op N _ (nm_ok_in N) true false) ops -> P_nm N inf cons0 (fst sc) (snd sc) ->
   let r := run N inf _ _ (nm_algo N inf) sc ops in
   stepmon N (fst r) <> [] -> sim N (snd r) <> [] ->
   cons0 (fst (nm_best N inf (snd r))) = fst (nm_best N inf (snd r)).
@@ -61,7 +61,7 @@ Theorem C03_powell_result_constrained :
   forall (N : Num) (inf : T N), (forall p, is_top N (add N inf p)) ->
   forall cons0 : vec N -> vec N, (forall x, cons0 (cons0 x) = cons0 x) ->
   forall (ops : list (op N (pw_in N))) (sc : sys N * pw N),
-  Forall (clean_op N _ (pw_ok_in N) true) ops -> P_pw N inf cons0 (fst sc) (snd sc) ->
+  Forall (clean_op N _ (pw_ok_in N) true false) ops -> P_pw N inf cons0 (fst sc) (snd sc) ->
   let r := run N inf _ _ (pw_algo N inf) sc ops in
   stepmon N (fst r) <> [] ->
   cons0 (fst (pw_best N inf (snd r))) = fst (pw_best N inf (snd r)).
